@@ -11,12 +11,12 @@ COMMON_NOTE = ("Trusted: Lean 4.33 kernel (axioms propext, Classical.choice, Quo
 
 CHECKS = {
  "C01": dict(
-  text="Executable Lean model of GenerateFunc (compiler to stack/closure slots, compiled semantics threading the shared storage) and of a lexically scoped reference semantics, in lock-step fuel; theorem exec_refines_eval (compiled = reference for every AST, nesting and fuel) in Props/C01.lean; every generated program (binding constructs inside call/method arguments, 3-level closures, recursion, currying, map-field closures) is run on the real code with optimizer off and on and compared with the model's reference semantics (the property's oracle) and the model's compiled semantics.",
+  text="Executable Lean model of GenerateFunc (compiler to stack/closure slots, compiled semantics threading the shared storage) and of a lexically scoped reference semantics, in lock-step fuel; theorem exec_refines_eval (compiled = reference for every AST, nesting and fuel) in Props/C01.lean; every generated program (binding constructs inside call/method arguments, 3-level closures, recursion, currying, map-field closures) is run on the real code with optimizer off and on and compared with the model's reference semantics (the property's oracle) and the model's compiled semantics; programs whose built-ins lie outside the compiled model's library are decided by the reference semantics over the eager library specification of C07; deterministic sweeps place binding constructs in every argument position, shadow captured names at every level and defer the first iteration of every lazy stage behind later bindings. Regenerated facts discharged by decide: the operator/static/method tables of value.New() are the model's, and no lazy-list producer factory of value/*.go mentions a stack captured at creation time (callbacks run on the iteration-time stack, as in the model).",
   note="Built-in callbacks are modelled on a fresh stack; error texts, float formatting, math.Pow, out-of-range float->int are outside the model (UNMODELLED answers are counted, not compared); library naturality proved for the listed built-ins, see Props/C01.lean for any _partial hypothesis.",
   technique="Lean 4 proof by induction on fuel (logical relation between environment and slot semantics) + differential run of the compiled model against Generate/Eval",
   design="DESIGN.md §3 C01"),
  "C02": dict(
-  text="Generic optimizer soundness theorem (optimize_sound under Laws, P2.Generic) plus, for the value table, the regrouping laws proved for the operators flagged commutative (wrap-around integer multiplication) and a decide obligation that today's flagged set (regenerated from the live value.New()) lies inside the lawful set and that throw/random are declared impure; on the implementation every program runs with optimizer on and off on fresh generators with pure/impure call counters (outcome, impure calls during Generate, per-evaluation call log), including the exhaustive chain enumeration (c1 op x) op c2 for all operators and operand types.",
+  text="Generic optimizer soundness theorem (optimize_sound under Laws, P2.Generic) plus, for the value table, the regrouping laws proved for the operators flagged commutative (wrap-around integer multiplication) and a decide obligation that today's flagged set (regenerated from the live value.New()) lies inside the lawful set and that throw/random are declared impure; on the implementation every program runs with optimizer on and off on fresh generators with pure/impure call counters (outcome, impure calls during Generate, per-evaluation call log), including the exhaustive chain enumeration (c1 op x) op c2 for all operators and operand types, a purity sweep (impure call in every child position), a name-space sweep (closure fields named like every map method, locals named like static functions) and a typed-position sweep (42 typed positions x 19 constants of every type).",
   note="Float regrouping differs by rounding (allowed by the property; relative 1e-12 on same-operator float chains). Two known findings (int wrap across the int/float border; And/Or matrices accept ints while folding).",
   technique="Lean 4 proof (rewrite-rule soundness under operator laws) + regenerated flag table with decide obligation + on/off differential run with call counters",
   design="DESIGN.md §3 C02"),
